@@ -1,4 +1,6 @@
 import VaxisModel.Model.Vxfw
+import VaxisModel.Lemmas.VxfwRank
+import VaxisModel.Props.C15Body
 
 /-! F115c (observation, recorded): `App.handleCommand` → `focusHandler.focusWidget` → the FocusIn handler →
 `App.handleCommand` … is an unbounded recursion when two widgets answer their FocusIn notification with a
@@ -44,5 +46,22 @@ theorem ping_pong_stuck : ∀ (fuel : Nat) (s : St) (w : Id), (w = 1 ∨ w = 2) 
 /-- From the start of `Run` (root widget 0 focused): the command `focus 1` never completes. -/
 theorem from_init (fuel : Nat) : (handleCommand o fuel (St.init 0) (.focus 1)).stuck = true :=
   ping_pong_stuck fuel (St.init 0) 1 (Or.inl rfl) (by decide)
+
+/-- No rank function makes the ping-pong oracle `NotifRanked`: the rank condition of `commands_once_history_ranked` fails
+    exactly because the two FocusIn answers point at each other. -/
+theorem no_rank : ¬ ∃ rk : Id → Nat, VaxisModel.Lemmas.Vxfw.NotifRanked o rk := by
+  rintro ⟨rk, h⟩
+  have h1 := (h 1 .target 0).1 (.focus 2) (by simp [o, Cmd.flatten]) 2 rfl
+  have h2 := (h 2 .target 0).1 (.focus 1) (by simp [o, Cmd.flatten]) 1 rfl
+  omega
+
+/-- The same through the EXECUTED body of `App.handleCommand` (regenerated from vxfw.go; its `a.fh.focusWidget(a, cmd)` is the
+    model's `focusWidget`, which `focus_widget_body_eq_model` identifies with its executed body): for every nesting budget the
+    interpreted `handleCommand(FocusWidgetCmd(1))` from the start of `Run` ends with the budget exhausted. -/
+theorem ping_pong_stuck_body (fuel : Nat) :
+    (VaxisModel.Model.VxfwInterp.runHandleCommand (VaxisModel.Model.DynExec.parseBody VaxisModel.Gen.VxfwBodies.handleCommand)
+        (VaxisModel.Lemmas.Vxfw.e0 o) fuel (St.init 0) (.focus 1)).map (·.stuck) = some true := by
+  rw [VaxisModel.Props.C15Body.handle_command_body_eq_model, (VaxisModel.Props.C15Err.no_error_agrees_handlers o (fuel + 1) (St.init 0)).1]
+  exact congrArg some (from_init (fuel + 1))
 
 end VaxisModel.Witness.F115c
